@@ -38,7 +38,8 @@ pub enum HRes {
 #[derive(Clone)]
 struct Sys {
     h: Histogram,
-    coll: Arc<dyn Collector>,
+    /// None (single-handle programs): every collection goes through the one handle
+    coll: Option<Arc<dyn Collector>>,
     reg: Registry,
     locals: Vec<Arc<Mutex<LocalHistogram>>>,
 }
@@ -72,7 +73,8 @@ impl Sys {
                     buckets: h.get_bucket().iter().map(|b| b.cumulative_count()).collect(),
                 };
             }
-            HOpK::Collect(1) => return snap_of(&self.coll.collect()),
+            HOpK::Collect(_) if self.coll.is_none() => return snap_of(&self.h.collect()),
+            HOpK::Collect(1) => return snap_of(&self.coll.as_ref().unwrap().collect()),
             HOpK::Collect(_) => return snap_of(&self.reg.gather()),
             HOpK::GetCount => return HRes::Count(self.h.get_sample_count()),
             HOpK::GetSum => return HRes::Sum(self.h.get_sample_sum()),
@@ -269,17 +271,27 @@ pub fn run_hist(src: &mut Src, rep: &mut Report, profile: Profile) -> Verdict {
     let nthreads = prog.threads.len();
     let reg = Registry::new();
     let opts = HistogramOpts::new("h", "help").buckets(prog.bounds.clone());
-    let (h, coll): (Histogram, Arc<dyn Collector>) = if prog.via_vec {
+    // a standalone program without local-histogram operations runs on ONE handle shared by reference: it is not registered,
+    // has no local companions and no clone of it exists anywhere
+    let uses_locals = prog.threads.iter().any(|p| p.iter().any(|o| matches!(o, HOpK::LocalObserve(_) | HOpK::LocalFlush)));
+    let single_handle = !prog.via_vec && !uses_locals;
+    let (h, coll): (Histogram, Option<Arc<dyn Collector>>) = if prog.via_vec {
         let v = HistogramVec::new(opts, &["l"]).unwrap();
         reg.register(Box::new(v.clone())).unwrap();
-        (v.with_label_values(&["x"]), Arc::new(v))
+        (v.with_label_values(&["x"]), Some(Arc::new(v)))
+    } else if single_handle {
+        (Histogram::with_opts(opts).unwrap(), None)
     } else {
         let h = Histogram::with_opts(opts).unwrap();
         reg.register(Box::new(h.clone())).unwrap();
-        (h.clone(), Arc::new(h))
+        (h.clone(), Some(Arc::new(h)))
     };
+    if single_handle {
+        rep.class("single-handle-shared-by-reference");
+    }
     let bounds: Vec<f64> = if prog.bounds.is_empty() { crate::props::c08::DEFAULT_BUCKETS.to_vec() } else { prog.bounds.clone() };
-    let sys = Sys { h: h.clone(), coll, reg, locals: (0..nthreads).map(|_| Arc::new(Mutex::new(h.local()))).collect() };
+    let locals = if single_handle { vec![] } else { (0..nthreads).map(|_| Arc::new(Mutex::new(h.local()))).collect() };
+    let sys = Sys { h, coll, reg, locals };
     let total: usize = prog.threads.iter().map(|p| p.len()).sum();
     let threads: Vec<Vec<OpFn<HRes>>> = prog
         .threads
@@ -288,7 +300,7 @@ pub fn run_hist(src: &mut Src, rep: &mut Report, profile: Profile) -> Verdict {
         .map(|(t, ops)| {
             ops.iter()
                 .map(|op| {
-                    let s = sys.clone();
+                    let s = &sys;
                     let op = op.clone();
                     Box::new(move || s.exec(t, &op)) as OpFn<HRes>
                 })
@@ -305,7 +317,7 @@ pub fn run_hist(src: &mut Src, rep: &mut Report, profile: Profile) -> Verdict {
             fin_ops
                 .into_iter()
                 .map(|op| {
-                    let s = sys.clone();
+                    let s = &sys;
                     Box::new(move || s.exec(0, &op)) as OpFn<HRes>
                 })
                 .collect(),
